@@ -30,21 +30,38 @@ Ltac args_tac :=
   first [ reflexivity
         | fail "the generated LSODA constructor arguments differ from Model_minerals.lsoda_problem_of" ].
 
-Lemma lsoda_args_inst_1 (regime ph fb : Z) (Fd o f : RL) (t0 t1 : R) :
+Lemma lsoda_args_inst_1 (regime ph fb : Z) (pars Fd o f : RL) (t0 t1 : R) :
   length Fd = 9%nat -> length o = 9%nat -> length f = 1%nat ->
-  @k_lsoda_args_n1 NumR regime ph fb (A Fd) (A o) (A f) t0 t1
+  @k_lsoda_args_n1 NumR regime ph fb (A pars) (A Fd) (A o) (A f) t0 t1
   = problem_view (@lsoda_problem_of NumR Fd {| sn_o := @chunks9 NumR o 1; sn_f := f |} t0 t1).
 Proof. intros HF Ho Hf. explode Fd HF. explode o Ho. explode f Hf. unfold k_lsoda_args_n1. args_tac. Qed.
-Lemma lsoda_args_inst_2 (regime ph fb : Z) (Fd o f : RL) (t0 t1 : R) :
+Lemma lsoda_args_inst_2 (regime ph fb : Z) (pars Fd o f : RL) (t0 t1 : R) :
   length Fd = 9%nat -> length o = 18%nat -> length f = 2%nat ->
-  @k_lsoda_args_n2 NumR regime ph fb (A Fd) (A o) (A f) t0 t1
+  @k_lsoda_args_n2 NumR regime ph fb (A pars) (A Fd) (A o) (A f) t0 t1
   = problem_view (@lsoda_problem_of NumR Fd {| sn_o := @chunks9 NumR o 2; sn_f := f |} t0 t1).
 Proof. intros HF Ho Hf. explode Fd HF. explode o Ho. explode f Hf. unfold k_lsoda_args_n2. args_tac. Qed.
-Lemma lsoda_args_inst_3 (regime ph fb : Z) (Fd o f : RL) (t0 t1 : R) :
+Lemma lsoda_args_inst_3 (regime ph fb : Z) (pars Fd o f : RL) (t0 t1 : R) :
   length Fd = 9%nat -> length o = 27%nat -> length f = 3%nat ->
-  @k_lsoda_args_n3 NumR regime ph fb (A Fd) (A o) (A f) t0 t1
+  @k_lsoda_args_n3 NumR regime ph fb (A pars) (A Fd) (A o) (A f) t0 t1
   = problem_view (@lsoda_problem_of NumR Fd {| sn_o := @chunks9 NumR o 3; sn_f := f |} t0 t1).
 Proof. intros HF Ho Hf. explode Fd HF. explode o Ho. explode f Hf. unfold k_lsoda_args_n3. args_tac. Qed.
+
+(* the argument validation: a malformed call (bad = 1..4) is the leaf Err ValueError -- the translator's adapter has
+   verified on that path that no user callable was evaluated, no integrator constructed, the history untouched --
+   any other call builds the problem instance *)
+Definition res_view (r : res (@lsoda_problem NumR)) : res (R * arr R * R * arr R * R * R) :=
+  match r with Ok P => Ok (problem_view P) | Err e => Err e end.
+
+Lemma update_args_inst_1 (bad regime ph fb : Z) (pars Fd o f : RL) (t0 t1 : R) :
+  length Fd = 9%nat -> length o = 9%nat -> length f = 1%nat ->
+  @k_update_args_n1 NumR bad regime ph fb (A pars) (A Fd) (A o) (A f) t0 t1
+  = res_view (@checked_problem NumR bad Fd {| sn_o := @chunks9 NumR o 1; sn_f := f |} t0 t1).
+Proof.
+  intros HF Ho Hf. explode Fd HF. explode o Ho. explode f Hf.
+  unfold k_update_args_n1, checked_problem, malformed_call.
+  repeat match goal with |- context [Z.eqb bad ?k] => destruct (Z.eqb bad k) end; cbn [orb res_view];
+    first [ reflexivity | (f_equal; args_tac) ].
+Qed.
 
 (* the caller's own tolerances / step sizes reach LSODA unchanged; t0, y0, t_bound as before *)
 Lemma lsoda_args_user_inst_1 (Fd o f : RL) (t0 t1 ua ur uf umx umn : R) :
@@ -105,26 +122,26 @@ Ltac loop_tac upd_eq kupd :=
 (* m solver steps, step `fail` failing: the stored snapshot and the returned F are those of
    Model_minerals.update applied to the LAST state vector (earlier vectors are dead code), the sliding
    reference is the snapshot the update started from; a failure stores nothing *)
-Lemma update_loop_inst_1_2 (fail regime ph fb : Z) (chi : R) (prev pf y1 y2 : RL) :
+Lemma update_loop_inst_1_2 (fail regime ph fb : Z) (chi : R) (pars prev pf y1 y2 : RL) :
   length prev = 9%nat -> length y2 = 19%nat ->
-  @k_update_loop_n1_m2 NumR fail regime ph fb chi (A prev) (A y1) (A y2)
+  @k_update_loop_n1_m2 NumR fail regime ph fb chi (A pars) (A prev) (A y1) (A y2)
   = upd_view (@update_steps NumR 1 chi [{| sn_o := @chunks9 NumR prev 1; sn_f := pf |}] (loop_steps fail [y1; y2])).
-Proof. intros Hp Hy. unfold k_update_loop_n1_m2. loop_tac (update_inst_1 chi prev pf y2 Hp Hy) (@k_update_n1). Qed.
-Lemma update_loop_inst_1_3 (fail regime ph fb : Z) (chi : R) (prev pf y1 y2 y3 : RL) :
+Proof. intros Hp Hy. unfold k_update_loop_n1_m2. loop_tac (update_inst_1 chi pars prev pf y2 Hp Hy) (@k_update_n1). Qed.
+Lemma update_loop_inst_1_3 (fail regime ph fb : Z) (chi : R) (pars prev pf y1 y2 y3 : RL) :
   length prev = 9%nat -> length y3 = 19%nat ->
-  @k_update_loop_n1_m3 NumR fail regime ph fb chi (A prev) (A y1) (A y2) (A y3)
+  @k_update_loop_n1_m3 NumR fail regime ph fb chi (A pars) (A prev) (A y1) (A y2) (A y3)
   = upd_view (@update_steps NumR 1 chi [{| sn_o := @chunks9 NumR prev 1; sn_f := pf |}] (loop_steps fail [y1; y2; y3])).
-Proof. intros Hp Hy. unfold k_update_loop_n1_m3. loop_tac (update_inst_1 chi prev pf y3 Hp Hy) (@k_update_n1). Qed.
-Lemma update_loop_inst_2_2 (fail regime ph fb : Z) (chi : R) (prev pf y1 y2 : RL) :
+Proof. intros Hp Hy. unfold k_update_loop_n1_m3. loop_tac (update_inst_1 chi pars prev pf y3 Hp Hy) (@k_update_n1). Qed.
+Lemma update_loop_inst_2_2 (fail regime ph fb : Z) (chi : R) (pars prev pf y1 y2 : RL) :
   length prev = 18%nat -> length y2 = 29%nat ->
-  @k_update_loop_n2_m2 NumR fail regime ph fb chi (A prev) (A y1) (A y2)
+  @k_update_loop_n2_m2 NumR fail regime ph fb chi (A pars) (A prev) (A y1) (A y2)
   = upd_view (@update_steps NumR 2 chi [{| sn_o := @chunks9 NumR prev 2; sn_f := pf |}] (loop_steps fail [y1; y2])).
-Proof. intros Hp Hy. unfold k_update_loop_n2_m2. loop_tac (update_inst_2 chi prev pf y2 Hp Hy) (@k_update_n2). Qed.
-Lemma update_loop_inst_3_2 (fail regime ph fb : Z) (chi : R) (prev pf y1 y2 : RL) :
+Proof. intros Hp Hy. unfold k_update_loop_n2_m2. loop_tac (update_inst_2 chi pars prev pf y2 Hp Hy) (@k_update_n2). Qed.
+Lemma update_loop_inst_3_2 (fail regime ph fb : Z) (chi : R) (pars prev pf y1 y2 : RL) :
   length prev = 27%nat -> length y2 = 39%nat ->
-  @k_update_loop_n3_m2 NumR fail regime ph fb chi (A prev) (A y1) (A y2)
+  @k_update_loop_n3_m2 NumR fail regime ph fb chi (A pars) (A prev) (A y1) (A y2)
   = upd_view (@update_steps NumR 3 chi [{| sn_o := @chunks9 NumR prev 3; sn_f := pf |}] (loop_steps fail [y1; y2])).
-Proof. intros Hp Hy. unfold k_update_loop_n3_m2. loop_tac (update_inst_3 chi prev pf y2 Hp Hy) (@k_update_n3). Qed.
+Proof. intros Hp Hy. unfold k_update_loop_n3_m2. loop_tac (update_inst_3 chi pars prev pf y2 Hp Hy) (@k_update_n3). Qed.
 
 (* ================= update_all ================= *)
 Definition hist1 (n : nat) (o f : RL) : @history NumR := [{| sn_o := @chunks9 NumR o n; sn_f := f |}].
@@ -184,30 +201,30 @@ Ltac bulk_tac :=
   first [ reflexivity
         | fail "the generated update_all differs from Model_minerals.bulk_update / bulk_y0 (same starting F for every mineral, value = F of the last)" ].
 
-Lemma update_all_inst_1_2 (fail regime ph fb : Z) (chi : R) (Fd o1 f1 o2 f2 y1 y2 : RL) :
+Lemma update_all_inst_1_2 (fail regime ph fb : Z) (chi : R) (pars Fd o1 f1 o2 f2 y1 y2 : RL) :
   length Fd = 9%nat -> length o1 = 9%nat -> length f1 = 1%nat -> length o2 = 9%nat -> length f2 = 1%nat ->
   length y1 = 19%nat -> length y2 = 19%nat ->
-  @k_update_all_n1_k2 NumR fail regime ph fb chi (A Fd) (A o1) (A f1) (A o2) (A f2) (A y1) (A y2)
+  @k_update_all_n1_k2 NumR fail regime ph fb chi (A pars) (A Fd) (A o1) (A f1) (A o2) (A f2) (A y1) (A y2)
   = bulk_view2 Fd [hist1 1 o1 f1; hist1 1 o2 f2]
       (@bulk_update NumR 1 chi [hist1 1 o1 f1; hist1 1 o2 f2] (loop_steps fail [y1; y2])).
 Proof.
   intros HF Ho1 Hf1 Ho2 Hf2 Hy1 Hy2.
-  pose proof (update_inst_1 chi o1 f1 y1 Ho1 Hy1) as H1. pose proof (update_inst_1 chi o2 f2 y2 Ho2 Hy2) as H2.
+  pose proof (update_inst_1 chi pars o1 f1 y1 Ho1 Hy1) as H1. pose proof (update_inst_1 chi pars o2 f2 y2 Ho2 Hy2) as H2.
   unfold k_update_n1 in H1, H2. unfold k_update_all_n1_k2.
   explode Fd HF. explode o1 Ho1. explode f1 Hf1. explode o2 Ho2. explode f2 Hf2.
   bulk_tac.
 Qed.
 
-Lemma update_all_inst_1_3 (fail regime ph fb : Z) (chi : R) (Fd o1 f1 o2 f2 o3 f3 y1 y2 y3 : RL) :
+Lemma update_all_inst_1_3 (fail regime ph fb : Z) (chi : R) (pars Fd o1 f1 o2 f2 o3 f3 y1 y2 y3 : RL) :
   length Fd = 9%nat -> length o1 = 9%nat -> length f1 = 1%nat -> length o2 = 9%nat -> length f2 = 1%nat ->
   length o3 = 9%nat -> length f3 = 1%nat -> length y1 = 19%nat -> length y2 = 19%nat -> length y3 = 19%nat ->
-  @k_update_all_n1_k3 NumR fail regime ph fb chi (A Fd) (A o1) (A f1) (A o2) (A f2) (A o3) (A f3) (A y1) (A y2) (A y3)
+  @k_update_all_n1_k3 NumR fail regime ph fb chi (A pars) (A Fd) (A o1) (A f1) (A o2) (A f2) (A o3) (A f3) (A y1) (A y2) (A y3)
   = bulk_view3 Fd [hist1 1 o1 f1; hist1 1 o2 f2; hist1 1 o3 f3]
       (@bulk_update NumR 1 chi [hist1 1 o1 f1; hist1 1 o2 f2; hist1 1 o3 f3] (loop_steps fail [y1; y2; y3])).
 Proof.
   intros HF Ho1 Hf1 Ho2 Hf2 Ho3 Hf3 Hy1 Hy2 Hy3.
-  pose proof (update_inst_1 chi o1 f1 y1 Ho1 Hy1) as H1. pose proof (update_inst_1 chi o2 f2 y2 Ho2 Hy2) as H2.
-  pose proof (update_inst_1 chi o3 f3 y3 Ho3 Hy3) as H3.
+  pose proof (update_inst_1 chi pars o1 f1 y1 Ho1 Hy1) as H1. pose proof (update_inst_1 chi pars o2 f2 y2 Ho2 Hy2) as H2.
+  pose proof (update_inst_1 chi pars o3 f3 y3 Ho3 Hy3) as H3.
   unfold k_update_n1 in H1, H2, H3. unfold k_update_all_n1_k3.
   explode Fd HF. explode o1 Ho1. explode f1 Hf1. explode o2 Ho2. explode f2 Hf2. explode o3 Ho3. explode f3 Hf3.
   bulk_tac.
